@@ -64,9 +64,9 @@ Thorough == Tier = "thorough"
 EulerNearPole == { QMul(QMul(z, y), x) : z \in {<<2,0,0,1>>, <<1,0,0,-1>>},
                                           y \in {<<501,0,500,0>>, <<401,0,-400,0>>, <<301,0,300,0>>},
                                           x \in {<<3,1,0,0>>, <<1,-1,0,0>>} }
-NFam == 21
+NFam == 25
 Families ==
-  [ k \in 1..21 |->
+  [ k \in 1..25 |->
     CASE k = 1  -> SO3Set("quat",  IF Thorough THEN QL2 ELSE QL1)
       [] k = 2  -> SO3Set("mrp",   IF Thorough THEN QL2 ELSE QL1)
       [] k = 3  -> SO3Set("dcm",   IF Thorough THEN QL2 ELSE QL1)
@@ -87,10 +87,16 @@ Families ==
       [] k = 18 -> ProdSet(5)
       [] k = 19 -> ProdSet(6)
       [] k = 20 -> ProdSet(7)
-      [] k = 21 -> ProdSet(8) ]
+      [] k = 21 -> ProdSet(8)
+      (* SE(3) / SE_2(3) over the DCM and Euler parameterisations: the classes are generic over the SO(3)
+         representation; cyecca.lie only instantiates quaternion and MRP, a user instantiates the others *)
+      [] k = 22 -> { X \in SE3Set("dcm", QTri, TTri) : X.pd = 2 }
+      [] k = 23 -> { X \in SE3Set("euler", QTri, TTri) : X.pd = 2 }
+      [] k = 24 -> SE23Set("dcm", {<<1,1,0,0>>, <<2,1,0,-1>>}, {<<1,-2,0>>, <<3,1,1>>})
+      [] k = 25 -> SE23Set("euler", {<<1,1,0,0>>, <<2,1,0,-1>>}, {<<1,-2,0>>, <<3,1,1>>}) ]
 (* small sub-family used for associativity triples *)
 TriFamilies ==
-  [ k \in 1..21 |->
+  [ k \in 1..25 |->
     CASE k \in 1..4 -> { X \in Families[k] : X.q \in QTri \cup {<<0,1,0,0>>, <<-1,1,0,1>>} }
       [] k \in 5..6 -> { X \in Families[k] : X.q \in QTri /\ X.p \in TTri /\ X.pd = 2 }
       [] k \in 7..8 -> { X \in Families[k] : X.q \in {<<1,1,0,0>>, <<-1,0,1,1>>, <<2,1,0,-1>>} /\ X.p \in TTri /\ X.v \in {<<1,-2,0>>} }
@@ -123,7 +129,7 @@ V1(op, X, e)       == [op |-> op, a |-> <<X>>, exp |-> e]
 V2(op, X, Y, e)    == [op |-> op, a |-> <<X, Y>>, exp |-> e]
 V3(op, X, Y, Z, e) == [op |-> op, a |-> <<X, Y, Z>>, exp |-> e]
 
-Init == \E k \in 1..21 : \E X \in Families[k] : Valid(X) /\ tv = [op |-> "seed", a |-> <<X>>, fam |-> k]
+Init == \E k \in 1..25 : \E X \in Families[k] : Valid(X) /\ tv = [op |-> "seed", a |-> <<X>>, fam |-> k]
 
 Unary(X) ==
    \/ tv' = V1("mat", X, Mat(X))
